@@ -373,15 +373,18 @@ def parse_vals(out):
     return vals
 
 
-def run_pairs(pairs, workers=4, checks=True, raw=False):
+def run_pairs(pairs, workers=3, checks=True, raw=False):
     """pairs: list of (orig_src, new_src) -> list of (verdict, orig_out, new_out);
     verdict in same / differ / skip"""
     def one(src):
         import subprocess
-        try:
-            return minif.gfortran_run(src, flags=("-ffree-line-length-none", "-w") + (("-fcheck=bounds",) if checks else ()))
-        except subprocess.TimeoutExpired as err:
-            raise common.Infra(f"gfortran timed out: {err}")
+        flags = ("-ffree-line-length-none", "-w") + (("-fcheck=bounds",) if checks else ())
+        for attempt in range(3):        # a loaded machine can exceed the compile time limit: retry
+            try:
+                return minif.gfortran_run(src, flags=flags)
+            except subprocess.TimeoutExpired as err:
+                last = err
+        raise common.Infra(f"gfortran timed out three times: {last}")
     flat_srcs = [s for p in pairs for s in p]
     with concurrent.futures.ThreadPoolExecutor(max_workers=workers) as pool:
         outs = list(pool.map(one, flat_srcs))
